@@ -61,12 +61,16 @@ fn mk_graph(cap: usize) -> UltraGraph<i64> {
     }
 }
 
-pub fn run(args: &[i128], cap: usize) -> Vec<i128> {
+pub fn run(args: &[i128], cap: usize) -> Vec<i128> { run_c(args, cap, false) }
+
+// [ugraphc_<cap>]: before every third operation the graph is REPLACED BY ITS CLONE (a clone is indistinguishable from the original)
+pub fn run_c(args: &[i128], cap: usize, cloning: bool) -> Vec<i128> {
     let b = args[0] as usize;
     let mut g: UltraGraph<i64> = mk_graph(cap);
     let mut rets = Vec::new();
     let mut obs = Vec::new();
-    for op in args[1..].chunks(4) {
+    for (k, op) in args[1..].chunks(4).enumerate() {
+        if cloning && k % 3 == 2 { g = g.clone(); }
         rets.push(apply(&mut g, op));
         observe(&g, b, &mut obs);
     }
